@@ -716,7 +716,7 @@ void OPNMIDIplay::realTime_Controller(uint8_t channel, uint8_t type, uint8_t val
         break;
 
     case 7: // Change volume
-        m_midiChannels[channel].volume = value;
+        m_midiChannels[channel].volume = (value > 127) ? 127 : value;
         noteUpdateAll(channel, Upd_Volume);
         break;
 
@@ -743,7 +743,7 @@ void OPNMIDIplay::realTime_Controller(uint8_t channel, uint8_t type, uint8_t val
         break;
 
     case 11: // Change expression (another volume factor)
-        m_midiChannels[channel].expression = value;
+        m_midiChannels[channel].expression = (value > 127) ? 127 : value;
         noteUpdateAll(channel, Upd_Volume);
         break;
 
